@@ -125,6 +125,9 @@ def frame_meta(writes):
 def need_seq(v, what):
     """a series the property speaks about element-wise must be a list the executor can index generically; another representation is
     `cannot analyse` (exit 3), never a refuted obligation"""
+    if isinstance(v, Post):
+        from ..symex import post_as_seq
+        return post_as_seq(v)          # built by an append loop that reads no earlier element: element j = the value appended by iteration j
     if not isinstance(v, Seq): raise Unsupported("%s is not an element-wise indexable list in the executor (%s)" % (what, type(v).__name__))
     return v
 
